@@ -26,6 +26,7 @@ import multiprocessing
 import os
 import random
 import threading
+import time
 
 from harness import tlc, xl
 from harness.evidence import Verdict
@@ -360,6 +361,8 @@ def run(tier, seed):
     lib()
     tlc.scratch_dir()
     total_bad = 0
+    phase = {}
+    t0 = time.time()
 
     # -- TLC: the calendar machine and the argument machines, side by side
     out = {}
@@ -379,6 +382,7 @@ def run(tier, seed):
         if res.coverage.get(act, (0, 0))[1] == 0:
             raise tlc.MachineryFailure(f'vacuous: action {act} never taken')
     v.add_tlc(res, 'Calendar args (date, shift, time, yf)')
+    phase['wait_tlc_args'] = round(time.time() - t0, 1)
     if len(res.json) < res.distinct:
         raise tlc.MachineryFailure(
             f'export incomplete: {len(res.json)} vectors for {res.distinct} states')
@@ -484,7 +488,9 @@ def run(tier, seed):
     total_bad += j.merge_into(v, counter)
 
     # -- the calendar machine
+    phase['drive_args'] = round(time.time() - t0, 1)
     t_cal.join()
+    phase['wait_tlc_cal'] = round(time.time() - t0, 1)
     cres = out['cal']
     if isinstance(cres, BaseException):
         raise cres
@@ -539,9 +545,11 @@ def run(tier, seed):
     total_bad += j.merge_into(v, counter)
     v.sample(dict(t='cal', month_start=months[1], derived='days 32..60 of 1900-02'))
 
+    phase['drive_cal'] = round(time.time() - t0, 1)
     v.traces = ndays + 1 + n_date + len(shifts) + n_pairs + len(times)
     v.extra.update(
         exhaustive=not quick,
+        phase_elapsed_s=phase,
         serial_days_executed=ndays + 1,
         day_rule='every serial day 0..2958465' if not quick else
                  f'years 1900-1901 fully, first and last day of every month, '
